@@ -34,7 +34,17 @@ def hex_events(path, tid, start_i=1):
 
 
 def content(size: int, seed: int) -> bytes:
-    return bytes(((i * 31 + seed * 17 + (i >> 8)) & 0xFF) for i in range(size))
+    """File content per (size, seed).  Some seeds carry long runs of the erased-flash value 0xFF (or of 0x00) - a slot padded by an
+    earlier tool, an all-0xFF file: data like any other, every byte of it belongs into the partition image."""
+    b = bytearray(((i * 31 + seed * 17 + (i >> 8)) & 0xFF) for i in range(size))
+    if seed % 7 == 2 and size >= 16:
+        a = size // 4
+        b[a:a + max(16, size // 2)] = b"\xff" * len(b[a:a + max(16, size // 2)])
+    elif seed % 7 == 4:
+        b = bytearray(b"\xff" * size)
+    elif seed % 7 == 6 and size >= 16:
+        b[size // 3:size // 3 + 40] = b"\x00" * len(b[size // 3:size // 3 + 40])
+    return bytes(b)
 
 
 def scenarios(ctx):
